@@ -355,16 +355,17 @@ func obligationIndex(obls []*Obligation) []string {
 // PathCheck is the common shape of a path rule: every path of Fn (from From, or entry) that reaches a Sink
 // must satisfy Pred (which returns "" when satisfied, else the reason).
 type PathCheck struct {
-	Fn            *ssa.Function
-	From          ssa.Instruction
-	Sink          func(ssa.Instruction) bool
-	Event         func(ssa.Instruction) string
-	Cut           func(ssa.Instruction) bool
-	Track         []ssa.Value
-	Relevant      func(ssa.Value) bool
-	Pred          func(*PathState) string
-	KeepLoopFacts bool
-	MinPaths      int // at least this many paths must reach a sink (default 1): a sink that is never reached is a vacuous rule
+	Fn               *ssa.Function
+	From             ssa.Instruction
+	Sink             func(ssa.Instruction) bool
+	Event            func(ssa.Instruction) string
+	Cut              func(ssa.Instruction) bool
+	Track            []ssa.Value
+	Relevant         func(ssa.Value) bool
+	Pred             func(*PathState) string
+	KeepLoopFacts    bool
+	EventsBeforeFrom bool
+	MinPaths         int // at least this many paths must reach a sink (default 1): a sink that is never reached is a vacuous rule
 }
 
 // AllPaths evaluates a PathCheck as one obligation.
@@ -372,7 +373,7 @@ func (c *Ctx) AllPaths(construct string, pc PathCheck, okFormat string, args ...
 	if pc.Fn == nil {
 		return false
 	}
-	q := &PathQuery{Fn: pc.Fn, From: pc.From, Sink: pc.Sink, Event: pc.Event, Cut: pc.Cut, Track: pc.Track, Relevant: pc.Relevant, KeepLoopFacts: pc.KeepLoopFacts}
+	q := &PathQuery{Fn: pc.Fn, From: pc.From, Sink: pc.Sink, Event: pc.Event, Cut: pc.Cut, Track: pc.Track, Relevant: pc.Relevant, KeepLoopFacts: pc.KeepLoopFacts, EventsBeforeFrom: pc.EventsBeforeFrom}
 	states, err := q.Run()
 	if err != nil {
 		c.Undecide(construct, pc.Fn.Pos(), "%v", err)
